@@ -499,6 +499,7 @@ func (fx *Fx) callFuncValue(st *State, call *ast.CallExpr, preArgs []Val) []Val 
 	// effects: those of any literal with the same signature; events: opaque
 	ms := newModSet()
 	fx.w.callMods(fx.pkg, c, call, ms, nil)
+	ms.opaque = false
 	ms.emits = false
 	fx.havocMods(st, ms)
 	st.havocLogOpaque()
@@ -538,6 +539,9 @@ func (fx *Fx) havocMods(st *State, ms *modSet) {
 	}
 	if ms.emits || ms.all {
 		st.havocLog()
+		st.havocHeap("NC")
+	} else if ms.opaque {
+		st.havocLogOpaque()
 		st.havocHeap("NC")
 	}
 	if ms.allocs || ms.all {
@@ -766,6 +770,7 @@ func (fx *Fx) applyCall(st *State, fn *types.Func, recv *Val, args []Val, call *
 		// explicit event list
 		m2 := *ms
 		m2.emits = false
+		m2.opaque = false
 		fx.havocMods(st, &m2)
 		for _, ec := range sp.EmitsC {
 			env := &SpecEnv{fx: fx, st: st, old: pre, bound: bound, pos: specPos, pkg: calleePkg}
@@ -775,6 +780,7 @@ func (fx *Fx) applyCall(st *State, fn *types.Func, recv *Val, args []Val, call *
 	} else if sp.Flags["emits"] == "opaque" {
 		m2 := *ms
 		m2.emits = false
+		m2.opaque = false
 		fx.havocMods(st, &m2)
 		st.havocLogOpaque()
 		st.havocHeap("NC")
